@@ -62,6 +62,15 @@ theorem takeWhile_zero_eq (buf : Bytes) :
       rw [← ih]
     · simp [h]
 
+theorem takeWhile_length_le (p : Nat → Bool) (l : Bytes) : (l.takeWhile p).length ≤ l.length := by
+  induction l with
+  | nil => simp
+  | cons a t ih =>
+    simp only [List.takeWhile_cons]
+    split
+    · simp only [List.length_cons]; omega
+    · simp
+
 theorem skip_zeros_split (buf : Bytes) :
     zeros (buf.takeWhile (· == 0)).length ++ buf.drop (buf.takeWhile (· == 0)).length = buf := by
   induction buf with
@@ -436,6 +445,21 @@ theorem closeFd_frame (F : Nat → Bool) (cfg : Cfg) (s : S) :
 theorem closeFd_frame' (F : Nat → Bool) (cfg : Cfg) (wd : WD) (w : World) :
     Frame Op.benign F w (closeFd F cfg ⟨wd, w⟩).w := closeFd_frame F cfg ⟨wd, w⟩
 
+theorem padFallback_frame (F : Nat → Bool) (cfg : Cfg) (s : S) :
+    Frame Op.benign F s.w (padFallback F cfg s).1.w := by
+  unfold padFallback
+  simp only []
+  have h1 := noFx_frame_benign (lazyStat_frame F cfg ⟨{ s.wd with pst := false }, s.w⟩)
+  split
+  · exact h1.trans (closeFd_frame F cfg _)
+  · split
+    · split
+      · exact (h1.snoc rfl).trans (closeFd_frame' F cfg _ _)
+      · split
+        · exact ((h1.snoc rfl).snoc rfl).trans (closeFd_frame' F cfg _ _)
+        · exact (h1.snoc rfl).snoc rfl
+    · exact h1
+
 theorem extendFile_frame (F : Nat → Bool) (cfg : Cfg) (s : S) :
     Frame Op.benign F s.w (extendFile F cfg s).1.w := by
   unfold extendFile
@@ -444,20 +468,9 @@ theorem extendFile_frame (F : Nat → Bool) (cfg : Cfg) (s : S) :
   · exact Frame.refl _
   · split
     · exact Frame.refl _
-    · split
-      · exact Frame.trans (by frame_auto) (closeFd_frame' F cfg _ _)
-      · have hl := noFx_frame_benign (lazyStat_frame F cfg
-            ⟨{ s.wd with pst := false }, (sys F s.w (Op.ftruncate cfg.size)).1⟩)
-        have h0 : Frame Op.benign F s.w (sys F s.w (Op.ftruncate cfg.size)).1 := by frame_auto
-        have h1 := h0.trans hl
-        split
-        · exact h1.trans (closeFd_frame' F cfg _ _)
-        · split
-          · split
-            · exact (h1.snoc rfl).trans (closeFd_frame' F cfg _ _)
-            · split
-              · exact ((h1.snoc rfl).snoc rfl).trans (closeFd_frame' F cfg _ _)
-              · exact (h1.snoc rfl).snoc rfl
-          · exact h1
+    · have h0 : Frame Op.benign F s.w (sys F s.w (Op.ftruncate cfg.size)).1 := by frame_auto
+      split
+      · exact h0.trans (closeFd_frame' F cfg _ _)
+      · exact h0.trans (padFallback_frame F cfg ⟨s.wd, _⟩)
 
 end LA.SafeWrite
